@@ -54,7 +54,7 @@ theorem transformed_card (ok : TranscOK α) (m : Motion α) (hR : Rot m.b) {mn :
   | p4 a b c d h =>
     have hn := ok.sqrt_pos _ h
     have hnn := ok.sqrt_sq _ h.le
-    refine tr_card_of_frame m hR (s := cadPlane4 a b c d) rfl (Or.inl rfl)
+    refine tr_card_of_frame m hR (s := cadPlane4 a b c d) (planeCard_convert ok a b c d h) (Or.inl rfl)
       (fun q => a * q.x + b * q.y + c * q.z - d) (1 / Transc.sqrt (a * a + b * b + c * c)) (by positivity)
       (fun q => ?_) (fun s' hk _ _ => plane_conv _ rfl s' hk) (fun _ => rfl)
     simp only [frameF, cadPlane4, mkPlane, V3.dot, V3.sub]
